@@ -31,6 +31,20 @@ class Unit(Translator):
             if p: self.redirect[p] = n['id']
         self.assign_cnames()
 
+    def resolve_by_name(self, name, type_str=None, class_q=None, nargs=None):
+        """fallback when node ids of two dumps do not line up: unique match on (class, name[, type / arity])"""
+        cands = []
+        for n in self.fn_nodes:
+            if n.get('name') != name: continue
+            if class_q is not None and self.fn_class_qname(n) != class_q: continue
+            if type_str is not None and n.get('type', {}).get('qualType') != type_str: continue
+            if nargs is not None:
+                ps = self.fn_params(n)
+                need = sum(1 for p in ps if not [c for c in p.get('inner', []) if c])
+                if not (need <= nargs <= len(ps)): continue
+            if all(x['id'] != n['id'] for x in cands): cands.append(n)
+        return cands[0] if len(cands) == 1 else None
+
     def resolve_fn(self, fid):
         seen = 0
         while fid in self.redirect and seen < 8:
@@ -76,6 +90,8 @@ class Unit(Translator):
 
     def call_function(self, P, n, r, obj, args):
         callee = self.resolve_fn(r['id'])
+        if callee is None and r.get('name'):
+            callee = self.resolve_by_name(r['name'], type_str=r.get('type', {}).get('qualType'))
         if callee is not None and self.is_translatable(callee):
             cn = self._callee_cname(P, callee)
             a = P.call_args(callee, args)
@@ -92,6 +108,12 @@ class Unit(Translator):
     def call_method(self, P, n, mexpr, obj, mid, args):
         callee = self.resolve_fn(mid) if mid else None
         is_arrow = bool(mexpr.get('isArrow'))
+        if callee is None and mid and mid not in self.decl:
+            ot0 = P.ty(obj)
+            if is_arrow and ot0.kind == 'ptr': ot0 = ot0.to
+            ot0 = ot0.strip_ref()
+            if ot0.kind == 'named' and self.category(ot0) == 'record':
+                callee = self.resolve_by_name(mexpr['name'], class_q=ot0.name, nargs=len(args))
         if callee is not None and self.is_translatable(callee):
             if callee.get('virtual') and not self.opts.get('devirtualize_all'):
                 return self.virtual_call(P, n, callee, obj, is_arrow, args)
@@ -326,7 +348,23 @@ class Unit(Translator):
         return '(%s = (%s *)malloc(sizeof(%s)), %s)' % (tmp, cty, cty, tmp)
 
     def lambda_expr(self, P, n):
-        raise Unsupported('%s: lambda expression' % P.cname)
+        """capture-less lambda -> static C function; the lambda value is the function designator"""
+        rec = [c for c in n.get('inner', []) if c.get('kind') == 'CXXRecordDecl']
+        if not rec: raise Unsupported('%s: lambda without closure class' % P.cname)
+        fields = [c for c in rec[0].get('inner', []) if c.get('kind') == 'FieldDecl']
+        if fields: raise Unsupported('%s: lambda with captures' % P.cname)
+        ops = [c for c in rec[0].get('inner', []) if c.get('kind') == 'CXXMethodDecl' and c.get('name') == 'operator()']
+        if not ops: raise Unsupported('%s: lambda without call operator' % P.cname)
+        op = ops[0]
+        if op['id'] not in self.cname_of:
+            op['_lambda_free'] = True
+            k = sum(1 for x in self.fn_by_cname if x.startswith(P.cname + '__lambda'))
+            cn = '%s__lambda%d' % (P.cname, k)
+            self.fn_by_cname[cn] = op; self.cname_of[op['id']] = cn
+            self.srcinfo[cn] = self._src_range(op)
+            if not any(x['id'] == op['id'] for x in self.fn_nodes): self.fn_nodes.append(op)
+        self.want_fn(op['id'])
+        return self.cname_of[op['id']]
 
     EXC_CLASSES = {'std::out_of_range': 'EXC_out_of_range', 'std::invalid_argument': 'EXC_invalid_argument',
                    'std::runtime_error': 'EXC_runtime_error', 'std::bad_optional_access': 'EXC_bad_optional_access'}
